@@ -64,13 +64,13 @@ func (c *caseResult) has(proxy, sig string) bool {
 }
 
 type runner struct {
-	res    *engine.Result
-	specs  []proxySpec
-	cache  map[string]*caseResult
-	keep   func(idx []int) bool // which cases to keep in the cache
-	nEnv   int64
-	nSnap  int64
-	nRes   int64
+	res   *engine.Result
+	specs []proxySpec
+	cache map[string]*caseResult
+	keep  func(idx []int) bool // which cases to keep in the cache
+	nEnv  int64
+	nSnap int64
+	nRes  int64
 }
 
 func keyOf(idx []int) string { return fmt.Sprint(idx) }
@@ -216,7 +216,7 @@ func specsFor(thorough bool) []proxySpec {
 func TestC14(t *testing.T) {
 	env := engine.GetEnv()
 	res := engine.NewResult("C14", "snapshots")
-	res.Rule = "base configuration (a platform service with the sidecar as endpoint, a ServiceEntry, a Gateway, a VirtualService) + every subset of size <= 2 of the collision alphabet (thorough: + every subset of size 3) x proxies (quick: sidecar, router; thorough: + sidecar with interception NONE, dual-stack router, waypoint); per case one real environment (core.NewConfigGenTest, unvalidated objects as the CRD client delivers them) and per proxy the real CDS, LDS, RDS (for every route name LDS references) and EDS (for every EDS cluster) generators with panics recovered; non-trivial = the snapshot of some proxy differs from the snapshot of the base alone and of every single object of the case alone (the objects interact or at least both matter)"
+	res.Rule = "base configuration (a platform service with the sidecar as endpoint, a ServiceEntry, a Gateway, a VirtualService) + every subset of size <= 2 of the collision alphabet (thorough: + every subset of size 3) x proxies (quick: sidecar, router; thorough: + sidecar with interception NONE, IPv6-only router, waypoint); per case one real environment (core.NewConfigGenTest, unvalidated objects as the CRD client delivers them) and per proxy the real CDS, LDS, RDS (for every route name LDS references) and EDS (for every EDS cluster) generators with panics recovered; non-trivial = the snapshot of some proxy differs from the snapshot of the base alone and of every single object of the case alone (the objects interact or at least both matter)"
 	defer res.Write(t, env)
 
 	r := &runner{res: res, specs: specsFor(env.Thorough()), cache: map[string]*caseResult{}}
@@ -225,7 +225,7 @@ func TestC14(t *testing.T) {
 		res.Count("environments_built", r.nEnv)
 		res.Count("snapshots_checked", r.nSnap)
 		res.Count("resources_validated", r.nRes)
-		var un []string
+		un := []string{}
 		for k, v := range unresolvedAny {
 			un = append(un, fmt.Sprintf("%s x%d", k, v))
 		}
